@@ -646,6 +646,53 @@ func c18Framing(c *Ctx, p *core.Prog) {
 		}
 	}
 	walk(writes[0].Call.Args[0], 0)
+	if !okHeader {
+		// the same header assembled by hand: appends of the constant pieces "Content-Length: " and "\r\n\r\n" around
+		// strconv.AppendInt / Itoa / FormatInt of len(content)
+		var lenUsed, prefix, suffix bool
+		seen := map[ssa.Value]bool{}
+		var scan func(v ssa.Value, d int)
+		scan = func(v ssa.Value, d int) {
+			if d > 10 || v == nil || seen[v] {
+				return
+			}
+			seen[v] = true
+			if s, ok := core.ConstString(v); ok {
+				if strings.HasPrefix(s, "Content-Length: ") {
+					prefix = true
+				}
+				if strings.HasSuffix(s, "\r\n\r\n") {
+					suffix = true
+				}
+				return
+			}
+			if core.LenOf(v) == content {
+				lenUsed = true
+				return
+			}
+			if in, ok := v.(ssa.Instruction); ok {
+				if c, isCall := v.(*ssa.Call); isCall {
+					if f := c.Call.StaticCallee(); f != nil && core.FnPkg(f) != nil {
+						switch core.FnPkg(f).Path() {
+						case "strconv", "strings", "bytes", "fmt":
+						default:
+							if _, isB := c.Call.Value.(*ssa.Builtin); !isB {
+								return
+							}
+						}
+					}
+				}
+				var ops []*ssa.Value
+				for _, o := range in.Operands(ops) {
+					if *o != nil {
+						scan(*o, d+1)
+					}
+				}
+			}
+		}
+		scan(writes[0].Call.Args[0], 0)
+		okHeader = lenUsed && prefix && suffix
+	}
 	if okHeader && writes[0].Block().Dominates(writes[1].Block()) {
 		r.OK("framing", "sendMessage|content-length", p.Pos(writes[0].Pos()), "Content-Length is len() of the very slice written next")
 	} else {
